@@ -64,8 +64,14 @@ def main(tier, seed):
                         text, nres, raw = native_resolution(oracle, t, smp['names'])
                         eng = [a for _, a in smp['resolution(expr,pattern)']]
                         tot += 1
+                        exp = reference(t, pool, smp['names'])
                         if nres == eng:
                             okc += 1
+                        elif eng == exp and nres != exp:
+                            # the kernel agrees with Gleam's rules, the public API does not: a defect outside the kernel (lowering, classification),
+                            # shown natively on a program rendered from a solver model of an explored path
+                            chk.violation('goto:' + t, 'sampled', '%s: program %r (a solver model of an explored path): go-to-definition from the identifiers lands on binders %s, Gleam binds them to %s '
+                                          '(the scope kernel itself resolves them correctly: the defect is in lowering / classification)' % (name, text, nres, exp), {'template': t, 'names': smp['names'], 'text': text}, confirmed=True)
                         else:
                             chk.inconclusive.append('translator validation FAILED: %r engine %s public API %s' % (text, eng, nres))
                 chk.validated += okc
